@@ -575,7 +575,13 @@ def gen_csv_case(rng, idx, known):
               ("secondary_commodity", "symbol" if use_labels else 5), ("balance", "balance" if use_labels else 6),
               ("note", "note" if use_labels else 7)]
     bad_templates = 0
-    if r.random() < 0.4:
+    missing_labels = 0
+    if use_labels and known is None and r.random() < 0.2:
+        # a header that lacks several of the configured labels: the error text must not depend on the map order
+        for i in r.sample(range(len(fields)), r.randint(2, 5)):
+            fields[i] = (fields[i][0], "Missing " + fields[i][0].capitalize())
+            missing_labels += 1
+    if r.random() < 0.4 and not missing_labels:
         fields[1] = ("payee", {"template": "{category} - {note}"})
     if known == "F32-template":
         fields[1] = ("payee", {"template": "{nosuch}"})
@@ -621,8 +627,9 @@ def gen_csv_case(rng, idx, known):
     cfg += yaml_rules(rules)
     cls = config_class("csv", rules, bad_templates)
     return {"id": "I%05d" % idx, "kind": "import-csv", "files": {"cfg.yml": "\n".join(cfg) + "\n", "in.csv": csv_text},
-            "cmds": [["import", "-c", "cfg.yml", "in.csv"]], "features": ["csv"] + sorted(cls), "class": sorted(cls),
-            "nontrivial": any(len(el) > 1 for ru in rules for el in (ru["matcher"] if isinstance(ru["matcher"][0], list) else [ru["matcher"]])),
+            "cmds": [["import", "-c", "cfg.yml", "in.csv"]],
+            "features": ["csv"] + (["missing-labels"] if missing_labels else []) + sorted(cls), "class": sorted(cls),
+            "nontrivial": missing_labels > 1 or any(len(el) > 1 for ru in rules for el in (ru["matcher"] if isinstance(ru["matcher"][0], list) else [ru["matcher"]])),
             "aim": ["cli/src/import", "cli/src/cmd.rs"]}
 
 
